@@ -49,6 +49,24 @@ type c09pCase struct {
 	Present      []int       `json:"present"`
 	Faults       []c09pFault `json:"faults,omitempty"`
 	CorruptLocal int         `json:"corrupt_local"`
+	Two          *c09pTwo    `json:"two_pushes,omitempty"`
+}
+
+// c09pTwo is a plan with two pushes of the same model around one disturbed upload: the upload of Blob gets
+// its part (PATCH) or its commit (final PUT) refused Refusals times; blobUpload.Run then sleeps 1 s (2 s, ...)
+// before the next try, and in that window the first push may be abandoned by its client and a second push
+// may arrive and join the upload that is still registered in blobUploadManager.
+type c09pTwo struct {
+	Blob     int    `json:"blob"`
+	At       string `json:"at"`       // patch | commit
+	Refusals int    `json:"refusals"` // refused that many times, then accepted
+	Cancel1  bool   `json:"cancel_first"`
+	// when the second push starts, relative to the first refusal:
+	//   none            no second push
+	//   after-cancel    after the first push returned "context canceled" (the upload is abandoned but still registered and asleep)
+	//   before-cancel   at the refusal; the first push is cancelled (if at all) once the second has asked for the blob (HEAD), so the upload keeps a waiter
+	//   after-run-ended after the first push returned and the upload has left blobUploadManager
+	Join string `json:"second_push"`
 }
 
 func c09pGen(r *kit.Rand, idx int, thorough bool) *c09pCase {
@@ -68,6 +86,27 @@ func c09pGen(r *kit.Rand, idx int, thorough bool) *c09pCase {
 		if r.Chance(1, 4) {
 			c.Present = append(c.Present, b)
 		}
+	}
+	if r.Chance(1, 5) {
+		c.Present = nil
+		tw := &c09pTwo{Blob: r.Intn(len(c.Blobs)), At: kit.Pick(r, []string{"commit", "commit", "patch"}), Refusals: 1, Cancel1: true}
+		switch r.Intn(8) {
+		case 0, 1, 2, 3:
+			tw.Join = "after-cancel"
+		case 4:
+			tw.Join = "before-cancel"
+			tw.Cancel1 = r.Chance(2, 3)
+		case 5:
+			tw.Join = "after-run-ended"
+		case 6:
+			tw.Join = "none"
+		default:
+			tw.Join, tw.Cancel1 = "none", false
+			tw.Refusals = 2 // refused twice (1 s + 2 s of client sleeps), then accepted
+		}
+		c.Two = tw
+		c.Faults = []c09pFault{{Target: fmt.Sprintf("%s:%d", tw.At, tw.Blob), Kind: "status500", Times: tw.Refusals}}
+		return c
 	}
 	if thorough && r.Chance(1, 150) {
 		// an upload that never succeeds: blobUpload.Run gives up after 1+2+4+8+16+32 s of sleeps.
@@ -110,6 +149,9 @@ type c09pWorld struct {
 	manifest []string
 	sess     int
 	lastHead int
+	refused  chan int // blob whose part/commit was just refused (two-push plans)
+	heads    map[int]int
+	headSeen chan int // blob that was asked for (HEAD) a second time
 }
 
 func (w *c09pWorld) take(target string) string {
@@ -184,7 +226,15 @@ func (w *c09pWorld) serve(rw http.ResponseWriter, r *http.Request) {
 		w.note(b, "head")
 		w.mu.Lock()
 		w.lastHead = b
+		w.heads[b]++
+		second := w.heads[b] == 2
 		w.mu.Unlock()
+		if second {
+			select {
+			case w.headSeen <- b:
+			default:
+			}
+		}
 		if w.fault(rw, w.take(fmt.Sprintf("head:%d", b))) {
 			w.note(b, "head-failed")
 			return
@@ -243,6 +293,10 @@ func (w *c09pWorld) serve(rw http.ResponseWriter, r *http.Request) {
 		body, _ := io.ReadAll(r.Body)
 		if w.fault(rw, f) {
 			w.note(b, "part-failed")
+			select {
+			case w.refused <- b:
+			default:
+			}
 			return
 		}
 		w.mu.Lock()
@@ -260,6 +314,10 @@ func (w *c09pWorld) serve(rw http.ResponseWriter, r *http.Request) {
 		}
 		if w.fault(rw, w.take(fmt.Sprintf("commit:%d", b))) {
 			w.note(b, "commit-failed")
+			select {
+			case w.refused <- b:
+			default:
+			}
 			return
 		}
 		w.mu.Lock()
@@ -319,7 +377,8 @@ func c09pRun(t *testing.T, rep *kit.Report, c *c09pCase, base string) {
 	}
 	defer os.RemoveAll(dir)
 	t.Setenv("OLLAMA_MODELS", dir)
-	w := &c09pWorld{c: c, accepted: map[int]string{}, state: map[int]string{}, recv: map[string][]byte{}, sessBlob: map[string]int{}}
+	w := &c09pWorld{c: c, accepted: map[int]string{}, state: map[int]string{}, recv: map[string][]byte{}, sessBlob: map[string]int{},
+		refused: make(chan int, 64), heads: map[int]int{}, headSeen: make(chan int, 64)}
 	for i := range c.Faults {
 		f := c.Faults[i]
 		w.faults = append(w.faults, &f)
@@ -367,28 +426,123 @@ func c09pRun(t *testing.T, rep *kit.Report, c *c09pCase, base string) {
 		rep.Inconclusive("harness: " + err.Error())
 		return
 	}
+	push := func(ctx context.Context) chan error {
+		res := make(chan error, 1)
+		go func() {
+			defer func() {
+				if p := recover(); p != nil {
+					res <- fmt.Errorf("c09-PANIC: %v", p)
+				}
+			}()
+			res <- PushModel(ctx, name, &registryOptions{Insecure: true}, func(api.ProgressResponse) {})
+		}()
+		return res
+	}
+	// watchdogs below only ever produce "inconclusive"; the verdict is what the registry had accepted
+	// when a manifest PUT arrived
+	wait := func(res chan error, what string) (error, bool) {
+		select {
+		case err := <-res:
+			return err, true
+		case <-time.After(150 * time.Second):
+			rep.Inconclusive(fmt.Sprintf("case %d: %s did not return within the watchdog", c.Index, what))
+			return nil, false
+		}
+	}
 	ctx, cancel := context.WithCancel(context.Background())
 	defer cancel()
-	res := make(chan error, 1)
-	go func() {
-		defer func() {
-			if p := recover(); p != nil {
-				res <- fmt.Errorf("c09-PANIC: %v", p)
-			}
-		}()
-		res <- PushModel(ctx, name, &registryOptions{Insecure: true}, func(api.ProgressResponse) {})
-	}()
 	var perr error
-	select {
-	case perr = <-res:
-	case <-time.After(120 * time.Second):
-		cancel()
-		rep.Inconclusive(fmt.Sprintf("case %d: PushModel did not return within the watchdog", c.Index))
-		return
+	var errs []string
+	if tw := c.Two; tw == nil {
+		var ok bool
+		if perr, ok = wait(push(ctx), "PushModel"); !ok {
+			return
+		}
+	} else {
+		ctx2, cancel2 := context.WithCancel(context.Background())
+		defer cancel2()
+		res1 := push(ctx)
+		var res2 chan error
+		window := "refusal-seen"
+		select {
+		case <-w.refused:
+		case perr = <-res1:
+			window = "first-push-ended-before-the-refusal"
+			res1 = nil
+		case <-time.After(150 * time.Second):
+			rep.Inconclusive(fmt.Sprintf("case %d: the planned refusal never happened", c.Index))
+			return
+		}
+		registered := func() bool { _, ok := blobUploadManager.Load(c.Blobs[tw.Blob].Digest); return ok }
+		if res1 != nil {
+			// blobUpload.Run now sleeps (1 s) before its next try
+			switch tw.Join {
+			case "after-cancel", "after-run-ended":
+				cancel()
+				var ok bool
+				if perr, ok = wait(res1, "the abandoned first push"); !ok {
+					return
+				}
+				res1 = nil
+				if tw.Join == "after-run-ended" {
+					for i := 0; registered() && i < 2000; i++ {
+						time.Sleep(5 * time.Millisecond)
+					}
+					if registered() {
+						window = "upload-still-registered-after-10s"
+					} else {
+						window = "upload-gone"
+					}
+				} else if registered() {
+					window = "joined-abandoned-upload-asleep"
+				} else {
+					window = "missed:upload-already-gone"
+				}
+				res2 = push(ctx2)
+			case "before-cancel":
+				res2 = push(ctx2)
+				select {
+				case <-w.headSeen: // the second push asked for the blob; it joins the registered upload next
+					time.Sleep(30 * time.Millisecond)
+					window = "second-push-joined-live-upload"
+				case <-time.After(800 * time.Millisecond):
+					window = "missed:second-push-not-seen-in-time"
+				}
+				if tw.Cancel1 {
+					cancel()
+				}
+			default:
+				if tw.Cancel1 {
+					cancel()
+				}
+			}
+		}
+		rep.Count("two_push_window_"+window, 1)
+		if res1 != nil {
+			var ok bool
+			if perr, ok = wait(res1, "the first push"); !ok {
+				return
+			}
+		}
+		errs = append(errs, "first: "+fmt.Sprint(perr))
+		if res2 != nil {
+			err2, ok := wait(res2, "the second push")
+			if !ok {
+				return
+			}
+			errs = append(errs, "second: "+fmt.Sprint(err2))
+			if perr != nil && !strings.HasPrefix(perr.Error(), "c09-PANIC") {
+				perr = err2 // the push whose outcome is judged below (nil => a manifest must have been sent)
+			}
+		}
+		// let the upload goroutine of this case end before the next case changes OLLAMA_MODELS
+		for i := 0; registered() && i < 600; i++ {
+			time.Sleep(5 * time.Millisecond)
+		}
 	}
 	w.mu.Lock()
 	defer w.mu.Unlock()
-	wit := map[string]any{"push_error": fmt.Sprint(perr), "registry_log": w.log, "faults_fired": w.fired, "accepted": fmt.Sprint(w.accepted), "manifest_puts": w.manifest}
+	wit := map[string]any{"push_error": fmt.Sprint(perr), "pushes": errs, "registry_log": w.log, "faults_fired": w.fired, "accepted": fmt.Sprint(w.accepted), "manifest_puts": w.manifest}
 	if perr == nil {
 		rep.Count("push_ok", 1)
 	} else {
@@ -417,10 +571,17 @@ func c09pRun(t *testing.T, rep *kit.Report, c *c09pCase, base string) {
 		}
 	}
 	if uploads >= 2 || (uploads >= 1 && len(w.fired) > 0) || (len(w.fired) > 0 && len(c.Blobs) >= 2) {
-		rep.Distinct(fmt.Sprint(len(c.Layers), c.Config >= 0, len(c.Present), w.fired, c.CorruptLocal >= 0, perr == nil))
+		two := ""
+		if c.Two != nil {
+			two = fmt.Sprint(*c.Two)
+		}
+		rep.Distinct(fmt.Sprint(len(c.Layers), c.Config >= 0, len(c.Present), w.fired, c.CorruptLocal >= 0, perr == nil, two))
 		rep.Count("nontrivial_cases", 1)
 	}
 	rep.Count("uploads_committed", uploads)
+	if c.Two != nil {
+		rep.Count("cases_two_push_"+c.Two.At+"_"+c.Two.Join, 1)
+	}
 	if rep.NeedSample() {
 		rep.Sample(c)
 	}
